@@ -81,6 +81,10 @@ def f_tile(a, n=2):
     return np.repeat(a[..., None], n, axis=-1) + np.arange(n)
 
 
+def f_add3(a, b, c=0):
+    return a + 2 * b + 3 * c
+
+
 def f_addk(a, k=0):
     return a + k
 
@@ -198,6 +202,8 @@ class Stack:
             ops += ["bin_prev", "bin_prev"]
         if nd == 1:
             ops += ["outer"]
+        if 1 <= nd <= 2:
+            ops += ["sib_contract"] * 4
         if self.desc.get("chain_only"):
             ops = ["neg", "addc", "mulc"] + (["T"] if nd >= 2 else [])
         op = rng.choice(ops)
@@ -215,6 +221,29 @@ class Stack:
         elif op == "tensordot_root":
             m = rng.randint(1, 3)
             other = self.root((m, cur.shape[1]), (_comp(rng, m, 2), cur.chunks[1]), ann=rann)
+        elif op == "sib_contract":
+            # 2-3 SIBLING contraction layers (each contracts an index absent from its output) feeding one parent;
+            # contracted axes chunked differently (single block vs N blocks), index letters equal or different
+            nsib = rng.choice((2, 2, 3))
+            cat = rng.random() < 0.3
+            same_letter = rng.random() < 0.5
+            flavours = [rng.choice(("one", "many", "many")) for _ in range(nsib)]
+            if len(set(flavours)) == 1 and rng.random() < 0.8:
+                flavours[rng.randrange(nsib)] = "one" if flavours[0] == "many" else "many"
+            sibs = []
+            for j, fl in enumerate(flavours):
+                m = rng.randint(2, 6) if fl == "many" else rng.randint(1, 3)
+                if fl == "one":
+                    comp = (m,)
+                else:
+                    k = rng.randint(2, min(m, 4))
+                    cuts = sorted(rng.sample(range(1, m), k - 1))
+                    b = [0] + cuts + [m]
+                    comp = tuple(y - x for x, y in zip(b, b[1:]))
+                r = self.root(tuple(cur.shape) + (m,), tuple(cur.chunks) + (comp,), ann=rann)
+                letter = "z" if same_letter else "zyw"[j]
+                sibs.append((r, letter, len(comp)))
+            other = (sibs, cat, same_letter)
         with self._annotate(ann):
             if op == "neg":
                 z = -cur
@@ -286,6 +315,24 @@ class Stack:
                 z = da.blockwise(f_addk, ind, cur, ind, dtype=cur.dtype, k=d)
             elif op == "outer":
                 z = da.outer(cur, cur)
+            elif op == "sib_contract":
+                sibs, cat, same_letter = other
+                outs = []
+                for r, letter, _nb in sibs:
+                    if cat:
+                        outs.append(da.blockwise(f_cat_sumlast, ind, r, ind + (letter,), concatenate=True, dtype=cur.dtype))
+                    else:
+                        outs.append(da.blockwise(f_list_sumlast, ind, r, ind + (letter,), dtype=cur.dtype))
+                how = rng.choice(("operators", "blockwise", "blockwise_with_cur"))
+                if how == "operators":
+                    z = outs[0] + 2 * outs[1] if len(outs) == 2 else outs[0] + 2 * outs[1] - outs[2]
+                elif how == "blockwise" or len(outs) == 3:
+                    args = [a for o in outs for a in (o, ind)]
+                    z = da.blockwise(f_add3, ind, *args, dtype=cur.dtype)
+                else:
+                    z = da.blockwise(f_add3, ind, cur, ind, outs[0], ind, outs[1], ind, dtype=cur.dtype)
+                op += ":%s:%s:%s:blocks%s" % ("concatenate" if cat else "lists", "same-letter" if same_letter else "other-letters", how,
+                                             "-".join("1" if nb == 1 else "N" for _, _, nb in sibs))
             else:  # pragma: no cover
                 raise AssertionError(op)
         self.trace.append(op)
